@@ -51,7 +51,11 @@ class SetContext(object):
         return deepcopy(sc)
 
     def _set_context(self, context):
-        # we assume that context was already deeply copied if needed
+        # The context is updated in place below. A deep copy is needed,
+        # because previous elements of the sequence
+        # may have stored the context that they were given
+        # and must not see the updates made by later elements.
+        context = deepcopy(context)
         try:
             format_update_with(self._key, self._value, context)
         except LenaKeyError as exc:
